@@ -23,7 +23,7 @@ CHECKS.update(
         "predicate are proved equivalent to equality of base-dimension vectors (independent reader) for all exponent values in [-2,2] (thorough [-3,3]) "
         "and all magnitudes, on compound units of the default registry and on generated registries whose definition exponents are symbolic too; "
         "plus seeded/all ordered unit pairs with a symbolic magnitude.",
-        note="hash_mode=const stub (UnitsContainer hashes over its key set) keeps exponents symbolic; sound under the hash contract. Exponent range and unit tuples are bounds. float/Decimal/case-insensitive/auto-reduce configurations outside.",
+        note="hash_mode=const stub (UnitsContainer hashes over its key set) keeps exponents symbolic; sound under the hash contract. Exponent range and unit tuples are bounds. auto_reduce_dimensions / case-insensitive / autoconvert_to_preferred configurations are covered by H01.d on concrete unit pairs; float/Decimal outside.",
         design="4/C01",
     ),
     C02=dict(
@@ -59,7 +59,7 @@ CHECKS.update(
         text="Expression strings (all skeletons with 2-3 leaves over + - * / // ** unary signs and parentheses, sampled 4-leaf ones, juxtaposition variants) are evaluated by the real tokenizer/tree builder/evaluator "
         "with symbolic leaf values and by Python's own compiler on the same symbolic numbers; equality is proved for all leaf values (exponent leaves: small integers, solver-realised). Spelling variants with symbolic "
         "number literals are proved equal to the canonical spelling; ParserHelper.from_string scale bookkeeping likewise; numeric literal types per registry; every ill-formed token sequence up to length 4 must raise.",
-        note="The no-code-execution / no-I/O clause is outside (audit-hook territory, not encodable); '%' is not an operator of parse_expression (it is preprocessed into percent); skeletons needing real powers of symbolic bases are skipped.",
+        note="The no-code-execution / no-I/O clause is decided only on a fixed list of ~55 hostile strings x 5 entry points with a recording operand and a sentinel path (H07.e, concrete; all strings cannot be made symbolic); '%' is not an operator of parse_expression (it is preprocessed into percent); skeletons needing real powers of symbolic bases are skipped.",
         design="4/C07",
     ),
     C08=dict(
@@ -74,7 +74,7 @@ CHECKS.update(
         text="format(unit/quantity, spec) of the real formatters (D, C, P, H, L, Lx; long and ~) on units with solver-chosen integer exponents (every value in [-3,3]) and symbolic magnitudes rendered as placeholder literals: "
         "independent per-format layout recognisers require each unit exactly once, on the correct side, with exactly its exponent (omitted iff +-1), parentheses where a single denominator has several terms; "
         "D/C/P texts (and str(q)) are parsed back by the real parser and proved equal (magnitude equality by z3).",
-        note="Exponent values are enumerated by solver-driven realisation (the number formatter needs concrete integers); content of the numeric mini-language, locale output, Measurement formats and '#' outside.",
+        note="Exponent values are enumerated by solver-driven realisation (the number formatter needs concrete integers); spec dispatch (default_format, magnitude spec, '#'), sort functions and registered custom formats are checked by string relations (H09.d-f); content of Python's numeric mini-language and locale/babel output outside; Measurement formats are C19's H19.e.",
         design="4/C09",
     ),
     C10=dict(
